@@ -6,7 +6,7 @@
    dereference of a child accessor, with the nil tests that enclose it). *)
 From Coq Require Import String List Bool Arith.
 From Coca Require Import Lib.Str Generated.JavaShapes Model.TreeShape Model.ApiScan Model.Todo
-     Proofs.TreeShapeProofs Proofs.TodoProofs.
+     Proofs.TreeShapeProofs Proofs.TodoProofs Proofs.ApiProofs Proofs.ApiTotalProofs.
 Import ListNotations.
 Open Scope string_scope.
 
@@ -38,6 +38,11 @@ Print Assumptions C09_criterion_bites.
 Theorem C09_remove_quotes_total : forall t, strip1 t <> None.
 Proof. exact strip1_total. Qed.
 Print Assumptions C09_remove_quotes_total.
+
+(* the whole API scan model has no panic left: whatever the listener state and the file *)
+Theorem C09_api_scan_total : forall st u, exists s, api_unit st u = AOk s.
+Proof. exact api_unit_total. Qed.
+Print Assumptions C09_api_scan_total.
 
 Theorem C09_todo_scan_total : forall exts files, exists l, analysis_path exts files = Report l.
 Proof. exact analysis_path_total. Qed.
